@@ -206,7 +206,7 @@ def one_iso_finder(res, drv, rng, A, cfg):
     real = npr.default_rng
     np.random.default_rng = lambda *a, **k: RecordingRng(real(*a, **k), log)
     try:
-        with gu.time_limit(60):
+        with gu.time_limit(300):
             out = rm.iso_finder(np.array(A), n_iso, rel_inc_thresh=rit[0] / rit[1], allow_exhaustive=exh, sort_emit=sort_emit,
                                 label_map=label_map, thresh=thresh, seed=seed)
         err = None
@@ -426,7 +426,7 @@ def one_lc_orbit(res, drv, orb, rng, A, opts, depth, thresh, cache):
     np.random.seed(rng.randrange(2 ** 31))
     with NpRandomRecorder() as rec, IsoSpy() as spy:
         try:
-            with gu.time_limit(60):
+            with gu.time_limit(300):
                 outs = [gu.to_adj(g) for g in lc_orbit_finder(gu.to_graph(A), comp_depth=depth, orbit_size_thresh=thresh, with_iso=with_iso, rand=rand, rep_allowed=rep_allowed)]
             err = None
         except gu.Timeout:
@@ -495,7 +495,7 @@ def check_scripted(res, drv, orb, rng, quick, cache):
         jobs.append(("rgs", R, True, True))
         jobs.append(("rgs", gu.repeater_graph(m), True, True))
         jobs.append(("rgs", gu.permute(R, gu.random_perm(rng, 2 * m)), True, False))
-    for n in range(3, 11 if quick else 15):
+    for n in range(3, 11 if quick else 13):
         jobs.append(("linear", gu.path_graph(n), True, True))
         if n <= 9:
             jobs.append(("linear", gu.permute(gu.path_graph(n), gu.random_perm(rng, n)), True, False))
@@ -525,7 +525,7 @@ def check_scripted(res, drv, orb, rng, quick, cache):
         f = {"rgs": rm.rgs_orbit_finder, "linear": rm.linear_partial_orbit, "dfs": rm.depth_first_orbit}[kind]
         with IsoSpy() as spy:
             try:
-                with gu.time_limit(120):
+                with gu.time_limit(1200):
                     outs = [gu.to_adj(g) for g in f(gu.to_graph(A))]
                 err = None
             except gu.Timeout:
